@@ -322,6 +322,9 @@ func ruleNatsListener(c *Ctx) {
 	c.inst(1)
 	sp := &Spec{EdgeLimit: 1}
 	sp.Classify = func(t *Tracer, fr *Frame, in ssa.Instruction) []Ev {
+		if lk, ok := in.(*ssa.Lookup); ok && lk.CommaOk && isPendingMap(a, lk.X.Type()) {
+			return []Ev{{Kind: "lookup"}} // makes a lookup helper worth following
+		}
 		cl, ok := in.(ssa.CallInstruction)
 		if !ok {
 			return nil
@@ -359,7 +362,7 @@ func ruleNatsListener(c *Ctx) {
 		rv := t.Resolve(fr, v).V
 		if ex, ok := rv.(*ssa.Extract); ok && ex.Index == 1 {
 			if lk, ok := ex.Tuple.(*ssa.Lookup); ok {
-				if f, _ := fieldLoad(t.Resolve(fr, lk.X).V); f == a.reqs {
+				if f, _ := fieldLoad(t.Resolve(fr, lk.X).V); f == a.reqs || isPendingMap(a, lk.X.Type()) {
 					if d {
 						return []Ev{{Kind: "known"}}
 					}
@@ -372,6 +375,14 @@ func ruleNatsListener(c *Ctx) {
 				return []Ev{{Kind: "request"}}
 			}
 			return []Ev{{Kind: "event"}}
+		}
+		// the looked-up entry handed back by a helper and tested against nil (nil = nothing was found)
+		if x, nn, ok := nilTest(i, dir); ok && !nn {
+			if pt, ok := x.Type().Underlying().(*types.Pointer); ok {
+				if m, ok := a.reqs.Type().Underlying().(*types.Map); ok && types.Identical(m.Elem(), pt) {
+					return []Ev{{Kind: "entry-nil"}}
+				}
+			}
 		}
 		if bo, ok := v.(*ssa.BinOp); ok {
 			// len(msg.Data) == 0
@@ -437,7 +448,7 @@ func ruleNatsListener(c *Ctx) {
 		if hasKind(path, "pre-response") && inv > 0 {
 			bad = "a pre-response is also handed to the callback: " + tr.FmtPath(path)
 		}
-		if hasKind(path, "known") && hasKind(path, "request") && !hasKind(path, "pre-response") && inv == 0 {
+		if hasKind(path, "known") && hasKind(path, "request") && !hasKind(path, "pre-response") && !hasKind(path, "entry-nil") && inv == 0 {
 			bad = "a reply to a pending request completes nothing: " + tr.FmtPath(path)
 		}
 	}
@@ -611,10 +622,19 @@ func ruleNatsPreMeta(c *Ctx) {
 					if cf := calleeFunc(&cl.Call); cf != nil && cf.Name() == "AfterFunc" {
 						// the timer's function runs onTimeout
 						runs := false
+						// onTimeout itself, or the body split off it (onTimeout(v) { c.timeoutRequest(v.(*Subscription)) })
+						targets := map[*ssa.Function]bool{onTimeout: true}
+						for _, c3 := range callsIn(onTimeout) {
+							if sf := c3.Common().StaticCallee(); sf != nil && p.isRepoFn(sf) && !p.onReferenceTree(sf) {
+								targets[sf] = true
+							}
+						}
 						if mc, ok := t.Resolve(fr, cl.Call.Args[1]).V.(*ssa.MakeClosure); ok {
-							for _, c2 := range callsIn(mc.Fn.(*ssa.Function)) {
-								if c2.Common().StaticCallee() == onTimeout {
-									runs = true
+							for _, g := range p.withNewHelpers(mc.Fn.(*ssa.Function)) {
+								for _, c2 := range callsIn(g) {
+									if targets[c2.Common().StaticCallee()] {
+										runs = true
+									}
 								}
 							}
 						}
@@ -735,4 +755,27 @@ func ruleNatsPreMeta(c *Ctx) {
 		bad = "path budget exhausted"
 	}
 	c.check(bad == "", fnName(fn), "a valid timeout pre-response stops the running timeout once and, if that succeeded, arms a new one that runs onTimeout", p.Pos(fn.Pos()), fmt.Sprintf("%d paths, %d arm a timer", len(tr.Paths), nArm), bad)
+}
+
+// isPendingMap: a map whose values point to the struct that holds the completion (the pending map itself, or
+// the map inside a registry type that wraps it).
+func isPendingMap(a *natsAnchors, t types.Type) bool {
+	m, ok := t.Underlying().(*types.Map)
+	if !ok || a.completion == nil {
+		return false
+	}
+	et := m.Elem()
+	if pt, ok := et.(*types.Pointer); ok {
+		et = pt.Elem()
+	}
+	st, ok := et.Underlying().(*types.Struct)
+	if !ok {
+		return false
+	}
+	for i := 0; i < st.NumFields(); i++ {
+		if st.Field(i) == a.completion {
+			return true
+		}
+	}
+	return false
 }
